@@ -36,6 +36,7 @@ from vf.harness import VC, mk_sig
 from vf.objects import SymObj, Slot, SymCallable, MethodWrapper, may_raise, class_name
 from vf import sym as _sym
 from .common import clause
+from vf.spec import Z3Ops
 
 UF = '_autoforwards.autoforwards_function'
 UG = '_specifiers.forged_signature'
@@ -51,9 +52,12 @@ F_UA = clause(UF, 'post:own_annotations_resolve_in_own_globals', ['C11'], 'P',
 G_FRAME = clause(UG, 'frame:attributes_restored', ['C16', 'C05', 'C06', 'C07'], 'P')
 G_FORGER = clause(UG, 'raises:forger_errors_surface', ['C07', 'C04'], 'P')
 G_SUBSET = clause(UG, 'raises:subset_of_inspect', ['C07'], 'P')
-G_UP = clause(UG, 'post:upgraded', ['C07', 'C15'], 'P')
+G_UP = clause(UG, 'post:upgraded', ['C07', 'C15', 'C14', 'C04'], 'P')
 G_USED = clause(UG, 'post:forger_result_used', ['C04'], 'P')
 A_ONLY = clause(UA_, 'raises:only_UnknownForwards', ['C07', 'C15'], 'P')
+A_HINT = clause(UA_, 'pre:analysed_as_the_hint_says', ['C07', 'C05', 'C06'], 'P',
+                'call-site precondition: when the node analysed is the one a hint supplied, the function whose names are resolved and the '
+                'signature forwarded into are that hint\'s (function, node, signature) - not the hint-bearing wrapper')
 UW = '_autoforwards.forward_signatures'
 W_RAISE = clause(UW, 'raises:callee_failures_fall_back', ['C07', 'C06', 'C15'], 'P',
                  'an unresolvable callee, a ValueError/TypeError of its retrieval or of forwards() becomes UnknownForwards')
@@ -77,7 +81,8 @@ UF2 = 'specifiers.forwards'
 F_COMP = clause(UF2, 'post:is_signatures_forwards_of_the_two_signatures', ['C04'], 'P',
                 '= signatures.forwards(signatures.signature(wrapper), specifiers.signature(wrapped), *args, **kwargs)')
 UPA = '_autoforwards.autoforwards_partial'
-PA_COMP = clause(UPA, 'post:looks_through_the_partial', ['C19'], 'P',
+PA_COMP = clause(UPA, 'post:looks_through_the_partial', ['C19', 'C05', 'C06', 'C10'], 'P',      # discovery 'through functools.partial' is C05/C06's too
+
                  '= _mask(autoforwards(par.func, par.args, {}), len(par.args), no hide flag, par.keywords or {}, par) for EVERY partial object, '
                  'with or without bound positionals; positionals are handed to discovery, keywords are not')
 UT = '_specifiers.forged_signature (termination)'
@@ -145,6 +150,7 @@ def make_runner(mode, shape=DEF_SHAPES[0], node='FunctionDef', kind='function', 
             return ctx.decide(z3.Bool(name))
         env['r'] = r
         env.pop('forger_returned', None)
+        env.pop('forger_returned_plain', None)
         env.pop('af_ast_returned', None)
         env.pop('kwonly_sig', None)
         objs = []
@@ -183,6 +189,7 @@ def make_runner(mode, shape=DEF_SHAPES[0], node='FunctionDef', kind='function', 
             func_ast = args[1] if len(args) > 1 else dict(kwpairs).get('func_ast')
             sig = args[2] if len(args) > 2 else dict(kwpairs).get('sig')
             env['ast_pre'].append(func_ast)
+            env.setdefault('ast_calls', []).append((args[0] if args else dict(kwpairs).get('func'), func_ast, sig))
             if ctx.decide(ctx.fresh('af_ast_unknown', z3.BoolSort())):
                 raise PyExc(UF_cls, ())
             # the contract promises SOME upgraded signature: either one shaped like the def-signature, or one that
@@ -226,6 +233,10 @@ def make_runner(mode, shape=DEF_SHAPES[0], node='FunctionDef', kind='function', 
             def forger_behaviour(interp_, args, kwpairs):
                 if ctx.decide(z3.Bool('forger_returns_none')):
                     return None
+                if ctx.decide(z3.Bool('forger_returns_a_plain_inspect_signature')):
+                    # a user-written forger may hand back what inspect.signature gave it
+                    env['forger_returned_plain'] = world.plain_signature(I, gi)
+                    return env['forger_returned_plain']
                 env['forger_returned'] = gi.sig
                 return gi.sig
             forger = SymCallable('forger', forger_behaviour)
@@ -233,9 +244,14 @@ def make_runner(mode, shape=DEF_SHAPES[0], node='FunctionDef', kind='function', 
             def hint_behaviour(interp_, args, kwpairs):
                 if ctx.decide(z3.Bool('hint_returns_none')):
                     return None
-                # contract of a hint (modifiers._sigtools__autoforwards_hint): None or (function, its def node, signature)
-                return (env['obj'], SymNode('FunctionDef'), env['hint_sig'])
+                # contract of a hint (modifiers._sigtools__autoforwards_hint): None or (function, its def node, signature);
+                # the function is the RAW one the hint-bearing wrapper was built around, not the inspected object
+                t = (env['hint_func'], SymNode('FunctionDef'), env['hint_sig'])
+                env['hints_returned'].append(t)
+                return t
             hint = SymCallable('hint', hint_behaviour)
+            env['hint_func'] = new_obj('hint_function')
+            env['hints_returned'] = []
             wrapped = new_obj('wrapped_target')
             common = lambda n: {'__signature__': slot(n, 'signature', Opaque('sig value')), '_sigtools__forger': slot(n, 'forger', forger),
                                 '_sigtools__autoforwards_hint': slot(n, 'hint', hint), '__wrapped__': slot(n, 'wrapped', wrapped)}
@@ -513,21 +529,27 @@ def make_runner(mode, shape=DEF_SHAPES[0], node='FunctionDef', kind='function', 
         elif mode == 'as_forged':
             spm = I.module('sigtools.specifiers')
             inst = new_obj('instance', 'instance')
+            owner = new_obj('owner', 'instance')
             desc = I.instantiate(spm.ns['_AsForged'], [], [])
+            # the descriptor protocol: accessed on an instance (instance, type(instance)) or on the class (None, class)
+            on_class = ctx.decide(z3.Bool('accessed_on_the_class'))
+            subject = owner if on_class else inst
             pre_in = z3.Bool('already_computing')
             if ctx.decide(pre_in):
-                desc._d['currently_computing'].add(inst)
-            env['pre_in'] = bool(inst in desc._d['currently_computing'])
+                desc._d['currently_computing'].add(subject)
+            env['pre_in'] = bool(subject in desc._d['currently_computing'])
             env['desc'] = desc
-            env['inst'] = inst
+            env['inst'] = subject
+            env['sig_asked_for'] = []
 
             def sig_summary(interp_, clo, args, kwpairs):
                 # forged_signature by its contract: returns or raises whatever the forger / inspect raise
+                env['sig_asked_for'].append(args[0] if args else None)
                 may_raise(interp_, 'forged_signature')
                 return Opaque('a signature')
             I.call_hooks['_specifiers:forged_signature'] = sig_summary
             f = I.getattr_(desc, '__get__')
-            harness.run_unit(I, f, [inst, Opaque('owner')], [], r)
+            harness.run_unit(I, f, [None if on_class else inst, owner], [], r)
         else:
             raise EngineLimit('mode %s' % mode)
     return run, env
@@ -578,6 +600,11 @@ def vcs(env, want):
             ok = z3.Or(is_unknown_forwards(I, r.exc), z3.BoolVal(origin_ok(r.exc, ('inspect.signature', 'getattr:'))))
             out.append(VC(F_RAISES.full + ':' + r.exc.typname, [], ok, F_RAISES.props))
     elif mode == 'forged':
+        if on(A_HINT):
+            for fn_, node_, sig_ in env.get('ast_calls', []):
+                for h in env['hints_returned']:
+                    if node_ is h[1]:
+                        out.append(VC(A_HINT.full, [], z3.BoolVal(fn_ is h[0] and sig_ is h[2]), A_HINT.props))
         raised = [e for e in ctx.events if e[0] == 'external-raise' and e[1] == 'forger']
         if on(G_FORGER) and raised:
             ok = r.outcome == 'raise' and r.exc is raised[0][2]
@@ -593,10 +620,20 @@ def vcs(env, want):
                 out.append(VC(G_UP.full, [], z3.BoolVal(isinstance(r.value, Inst) and US in r.value._cls.mro), G_UP.props))
             if on(G_USED) and env.get('forger_returned') is not None and any(e[0] == 'external-call' and e[1] == 'forger' for e in ctx.events):
                 out.append(VC(G_USED.full, [], z3.BoolVal(r.value is env['forger_returned']), G_USED.props))
+            if on(G_USED) and env.get('forger_returned_plain') is not None:
+                # a plain signature is upgraded, keeping its parameters
+                ps = env['forger_returned_plain']._d['_parameters'].plist
+                qs = r.value._d['_parameters'].plist if isinstance(r.value, Inst) and '_parameters' in r.value._d else None
+                ok = qs is not None and len(ps) == len(qs)
+                goal = z3.BoolVal(bool(ok))
+                if ok:
+                    goal = z3.And(*[z3.And(Z3Ops.eq(p._d['_name'].t, q._d['_name'].t), z3.BoolVal(p._d['_kind'] == q._d['_kind']),
+                                           p._d['_default'].has == q._d['_default'].has) for p, q in zip(ps, qs)])
+                out.append(VC(G_USED.full + ':plain_result_upgraded', [], goal, G_USED.props))
             if on(G_PLAIN):
                 # which route produced the value: the forger's, the hint's / discovery's (the summary returns the very
                 # signature object it was handed), or plain retrieval
-                from_forger = env.get('forger_returned') is not None and r.value is env['forger_returned']
+                from_forger = (env.get('forger_returned') is not None and r.value is env['forger_returned']) or env.get('forger_returned_plain') is not None
                 # (a discovery result may be post-processed - mask(…, 1) for bound methods - so any successful
                 # autoforwards_ast on the path counts as the discovery route)
                 from_discovery = r.value is env.get('hint_sig') or bool(env.get('af_ast_returned'))
@@ -708,6 +745,8 @@ def vcs(env, want):
         now_in = inst in desc._d['currently_computing']
         if on(D_GUARD):
             out.append(VC(D_GUARD.full, [], z3.BoolVal(bool(now_in) == env['pre_in'] and len(desc._d['currently_computing']) == int(env['pre_in'])), D_GUARD.props))
+        if on(D_ATTR) and env['sig_asked_for']:
+            out.append(VC(D_ATTR.full + ':signature_of_the_object_accessed', [], z3.BoolVal(all(x is inst for x in env['sig_asked_for'])), D_ATTR.props))
         if on(D_ATTR):
             own_attr_error = r.outcome == 'raise' and r.exc.typ is AttributeError
             out.append(VC(D_ATTR.full, [], z3.BoolVal(own_attr_error == env['pre_in']), D_ATTR.props))
